@@ -23,6 +23,7 @@ Print Assumptions C07_matlab_writer.
 
 Theorem C07_matlab_reader_positions : forall sh st c st', matr_step sh st c = Some st' -> st' = st \/ st' = st + 1.
 Proof. exact matr_positions. Qed.
+Print Assumptions C07_matlab_reader_positions.
 
 (* the guards are necessary: with 256 (writer) / 128 (reader) steps the uint8_t state wraps; a complete
    in-order sequence can no longer be closed and the first step is accepted a second time *)
@@ -33,6 +34,7 @@ Theorem C07_cpp_writer_overflow_refuted :
   /\ cppw_accepts sh (all_vals 256 ++ [WVal 0]) = true
   /\ specw_accepts sh (all_vals 256 ++ [WVal 0]) = false.
 Proof. exact cppw_overflow_refuted. Qed.
+Print Assumptions C07_cpp_writer_overflow_refuted.
 
 Theorem C07_cpp_reader_overflow_refuted :
   let sh := repeat false 128 in
@@ -41,6 +43,7 @@ Theorem C07_cpp_reader_overflow_refuted :
   /\ cppr_accepts sh (all_rvals 128 ++ [RVal 0]) = true
   /\ specr_accepts sh (all_rvals 128 ++ [RVal 0]) = false.
 Proof. exact cppr_overflow_refuted. Qed.
+Print Assumptions C07_cpp_reader_overflow_refuted.
 
 (* Python writer: close() ends a trailing stream once; closing again changes nothing *)
 Theorem C07_py_writer_close_idempotent : forall sh se se',
@@ -53,3 +56,4 @@ Example C07_hyp_sat :
     [RVal 0; RBatch 1 true; RBatch 1 false; RItem 2 true; RItem 2 false; RVal 3; RClose] = true
   /\ specw_accepts [false; true; true; false] [WVal 0; WItem 1; WEnd 1; WEnd 2; WVal 3; WClose] = true.
 Proof. vm_compute. split; reflexivity. Qed.
+Print Assumptions C07_hyp_sat.
